@@ -71,6 +71,12 @@ def correspond(ctx, scale=1, variants=None, use_oracle=False):
     for k in range(2 if not ctx.thorough else 8):
         s = iterlib.MAX64 - rng.below(5000) if k % 2 == 0 else (1 << 64) - (1 << rng.between(33, 40)) + rng.below(1000)
         hists.append(("cpp" if k % 2 else "c", ["NEW %d %d" % (s, s - rng.between(0, 2000)), "P", "P"]))
+    # a backward chunk of several sieve segments ending at the top of the range (16 KiB segments, hint 3e6 below)
+    hists.append(("cpp", ["SS 16", "NEW %d %d" % (iterlib.MAX64 - rng.below(3), iterlib.MAX64 - 3 * 10 ** 6 - rng.below(10 ** 5)), "P", "P", "P"]))
+    # a sieve array above 4 MiB (sieve size 8192 KiB, chunk = 2*sqrt(n) numbers at n >= 1e16): the only
+    # configuration in which the sieving primes' multipleIndex field uses its top bit
+    for b in ("c", "cpp")[:2 if ctx.thorough else 1]:
+        hists.append((b, ["SS 8192", "NEW %d 0" % (10 ** 16 + rng.below(10 ** 12))] + ["P"] * 60))
     nmodel = len(hists)
     # 3. blocks filled by generate_prev_primes
     for k in range(50 * scale):
